@@ -197,6 +197,39 @@ Section SortProofs.
     pose proof (Hmax _ Hl) as L2. unfold le_key in *.
     rewrite (tc_antisym c T (key (last s d)) (key m)) in L1. destruct (c (key (last s d)) (key m)); cbn in *; congruence.
   Qed.
+  (* errors are not swallowed: an element that is comparable with no other element makes every
+     sort of a list of length >= 2 fail (in whatever order the elements come) *)
+  Lemma insert_perm x s s' : insert cmp key x s = Some s' -> Permutation (x :: s) s'.
+  Proof.
+    intros H. destruct (insert_some x s s' H) as [pre [post [-> [-> _]]]]. apply Permutation_middle.
+  Qed.
+  Lemma isort_perm l : forall s, isort cmp key l = Some s -> Permutation l s.
+  Proof.
+    induction l as [|x r IH]; intros s H; cbn in H.
+    - injection H as <-. constructor.
+    - destruct (isort cmp key r) as [t|] eqn:E; [|discriminate].
+      eapply perm_trans; [apply perm_skip, IH; reflexivity|now apply insert_perm].
+  Qed.
+
+  Theorem isort_isolated_fails pre x post :
+    pre ++ post <> [] ->
+    (forall y, In y (pre ++ post) -> cmp (key x) (key y) = None /\ cmp (key y) (key x) = None) ->
+    isort cmp key (pre ++ x :: post) = None.
+  Proof.
+    induction pre as [|a pre' IH]; intros NE Iso.
+    - cbn [app] in *. cbn [isort]. destruct (isort cmp key post) as [s|] eqn:E; [|reflexivity].
+      pose proof (isort_perm post s E) as P.
+      destruct s as [|y s']. { apply Permutation_sym, Permutation_nil in P. congruence. }
+      cbn [insert]. destruct (Iso y) as [-> _]; [|reflexivity].
+      eapply Permutation_in; [apply Permutation_sym; exact P|now left].
+    - cbn [app isort].
+      assert (D : pre' ++ post = [] \/ pre' ++ post <> []) by (destruct (pre' ++ post); [now left|right; discriminate]).
+      destruct D as [Z|Z].
+      + apply app_eq_nil in Z. destruct Z as [-> ->]. cbn.
+        destruct (Iso a) as [_ ->]; [now left|reflexivity].
+      + rewrite IH; [reflexivity|exact Z|].
+        intros y Hy. apply Iso. cbn. right. exact Hy.
+  Qed.
 End SortProofs.
 
 (* ------------------------------------------------------------------ min / max *)
